@@ -194,6 +194,10 @@ def programs(n_yields):
         dict(name='check-validate', target=nums, spec=lambda: [Check(validate=lambda x: Y(x) >= 0)]),
         dict(name='star-then-yield', target=lambda: {'r': [{'k': i} for i in range(n_yields)]}, spec=lambda: ('r.*.k', [Y])),
         dict(name='failing-in-list', target=nums, spec=lambda: [lambda x: Y(x)] if not n_yields else ([lambda x: Y(x)], T[99])),
+        # ONE First(...) spec object shared by calls whose scope binds the same name to different values; the key spec yields
+        # before it reads the binding
+        dict(name='shared-first-3', target=lambda: {'lim': 3, 'items': list(range(10))}, spec=lambda: _shared_first(n_yields)),
+        dict(name='shared-first-6', target=lambda: {'lim': 6, 'items': list(range(10))}, spec=lambda: _shared_first(n_yields)),
         # every call raises an exception of ITS OWN class; all these classes share one __name__
         dict(name='same-named-exceptions', target=lambda: {'cls': type('NotFound', (LookupError,) if next(_serial) % 2 else (ValueError,), {})},
              spec=lambda: chain(T) + (lambda t: (_ for _ in ()).throw(t['cls']('nf')),),
@@ -209,6 +213,15 @@ def programs(n_yields):
 
 
 _SHARED_ARG = {}
+_SHARED_FIRST = {}
+
+
+def _shared_first(n):
+    import operator
+    if n not in _SHARED_FIRST:
+        key = (Y, Call(operator.gt, args=(T, S.lim)))
+        _SHARED_FIRST[n] = (S(lim=T['lim']), 'items', Iter().first(key=key, default='none'))
+    return _SHARED_FIRST[n]
 
 
 def _tid_free(v):
